@@ -167,4 +167,157 @@ theorem sqrt_invsqrt (m s is : M6 ℝ) (d : Eig12 ℝ) (h1 : diagM m = .ok d) (h
     (h : sqrtM m = .ok (s, is)) : s.toMat * is.toMat = 1 ∧ is.toMat * s.toMat = 1 :=
   (sqrtM_spec m s is d h1 he h).2.2
 
+/-! ### metric intersection and its dual bound -/
+
+/-- hypotheses shared by the intersect / bound theorems: the two inner eigen decompositions
+    (of `m1`, and of `m1^{-1/2} m2 m1^{-1/2}`) succeeded and are exact -/
+structure InnerExact (m1 m2 s is : M6 ℝ) (d1 d2 : Eig12 ℝ) : Prop where
+  h1 : diagM m1 = .ok d1
+  e1 : IsEigSys d1 m1
+  hs : sqrtM m1 = .ok (s, is)
+  h2 : diagM (multM0M1M0 is m2) = .ok d2
+  e2 : IsEigSys d2 (multM0M1M0 is m2)
+
+theorem intersect_forms {m1 m2 s is m12 : M6 ℝ} {d1 d2 : Eig12 ℝ} (H : InnerExact m1 m2 s is d1 d2)
+    (h : intersect m1 m2 = .ok m12) (x : Vec3 ℝ) :
+    ∃ w : Fin 3 → ℝ, vtMv m1 x = ∑ k, w k ^ 2 ∧ vtMv m2 x = ∑ k, d2.lam k * w k ^ 2 ∧
+      vtMv m12 x = ∑ k, max 1 (d2.lam k) * w k ^ 2 := by
+  obtain ⟨_, hss, hsi, _⟩ := sqrtM_spec m1 s is d1 H.h1 H.e1 H.hs
+  unfold intersect at h
+  rw [H.hs] at h
+  dsimp only at h
+  obtain ⟨w, a, b, c⟩ := combine_forms _ m1 m2 s is m12 d2 hss hsi H.h2 H.e2 h x
+  refine ⟨w, a, b, ?_⟩
+  rw [c]
+  apply Finset.sum_congr rfl
+  intro k _
+  rw [cmax_eq, one_eq]
+
+/-- `xᵀ (intersect A B) x ≥ xᵀ A x` for every x -/
+theorem intersect_ge_left {m1 m2 s is m12 : M6 ℝ} {d1 d2 : Eig12 ℝ} (H : InnerExact m1 m2 s is d1 d2)
+    (h : intersect m1 m2 = .ok m12) (x : Vec3 ℝ) : vtMv m1 x ≤ vtMv m12 x := by
+  obtain ⟨w, a, _, c⟩ := intersect_forms H h x
+  rw [a, c]
+  apply Finset.sum_le_sum
+  intro k _
+  have : (1 : ℝ) ≤ max 1 (d2.lam k) := le_max_left _ _
+  nlinarith [sq_nonneg (w k)]
+
+/-- `xᵀ (intersect A B) x ≥ xᵀ B x` for every x -/
+theorem intersect_ge_right {m1 m2 s is m12 : M6 ℝ} {d1 d2 : Eig12 ℝ} (H : InnerExact m1 m2 s is d1 d2)
+    (h : intersect m1 m2 = .ok m12) (x : Vec3 ℝ) : vtMv m2 x ≤ vtMv m12 x := by
+  obtain ⟨w, _, b, c⟩ := intersect_forms H h x
+  rw [b, c]
+  apply Finset.sum_le_sum
+  intro k _
+  have : d2.lam k ≤ max 1 (d2.lam k) := le_max_right _ _
+  nlinarith [sq_nonneg (w k)]
+
+/-- the intersection is positive definite -/
+theorem intersect_spd {m1 m2 s is m12 : M6 ℝ} {d1 d2 : Eig12 ℝ} (H : InnerExact m1 m2 s is d1 d2)
+    (h : intersect m1 m2 = .ok m12) (x : Vec3 ℝ) (hx : x.x ≠ 0 ∨ x.y ≠ 0 ∨ x.z ≠ 0) :
+    0 < vtMv m12 x := by
+  obtain ⟨hpos, _, _, _⟩ := sqrtM_spec m1 s is d1 H.h1 H.e1 H.hs
+  have h1 : 0 < vtMv m1 x := by
+    rw [← H.e1.2]; exact vtMv_formM_pos d1 H.e1.1 hpos x hx
+  exact lt_of_lt_of_le h1 (intersect_ge_left H h x)
+
+/-- the identity as an M6 and its trivial eigen system -/
+theorem isEigSys_identity : IsEigSys ⟨1, 1, 1, 1, 0, 0, 0, 1, 0, 0, 0, 1⟩ (⟨1, 0, 0, 1, 0, 1⟩ : M6 ℝ) := by
+  refine ⟨⟨?_, ?_, ?_, ?_, ?_, ?_⟩, ?_⟩ <;> try (simp only; norm_num)
+  apply M6.ext' <;> simp only [formM, mul_eq, add_eq] <;> norm_num
+
+/-- shared: when both arguments coincide the clamped matrix is the identity, so the result is `m1` -/
+theorem combine_self (clamp : ℝ → ℝ) (hc1 : clamp 1 = 1) {m1 s is m12 : M6 ℝ} {d1 d2 : Eig12 ℝ}
+    (H : InnerExact m1 m1 s is d1 d2) (h : combine clamp s is m1 = .ok m12) : m12 = m1 := by
+  obtain ⟨_, hss, hsi, his⟩ := sqrtM_spec m1 s is d1 H.h1 H.e1 H.hs
+  have hbar : multM0M1M0 is m1 = (⟨1, 0, 0, 1, 0, 1⟩ : M6 ℝ) := by
+    apply M6.toMat_injective
+    rw [toMat_multM0M1M0, ← hss]
+    have : (⟨1, 0, 0, 1, 0, 1⟩ : M6 ℝ).toMat = 1 := by
+      rw [one_fin_three]; rfl
+    rw [this]
+    calc is.toMat * (s.toMat * s.toMat) * is.toMat
+        = (is.toMat * s.toMat) * (s.toMat * is.toMat) := by simp only [Matrix.mul_assoc]
+      _ = 1 := by rw [his, hsi, Matrix.one_mul]
+  unfold combine at h
+  dsimp only at h
+  rw [H.h2] at h
+  dsimp only at h
+  injection h with h
+  have he2 := H.e2
+  rw [hbar] at he2
+  have hcl : formM (mapEig clamp d2) = (⟨1, 0, 0, 1, 0, 1⟩ : M6 ℝ) := by
+    rw [Refine.Model.Matrix.formM_fun_congr clamp he2 isEigSys_identity]
+    apply M6.ext' <;> simp only [formM, mapEig, mul_eq, add_eq, hc1] <;> norm_num
+  rw [hcl] at h
+  apply M6.toMat_injective
+  rw [← h, toMat_multM0M1M0, ← hss]
+  have : (⟨1, 0, 0, 1, 0, 1⟩ : M6 ℝ).toMat = 1 := by
+    rw [one_fin_three]; rfl
+  rw [this, Matrix.mul_one]
+
+/-- `intersect A A = A` -/
+theorem intersect_self {m1 s is m12 : M6 ℝ} {d1 d2 : Eig12 ℝ} (H : InnerExact m1 m1 s is d1 d2)
+    (h : intersect m1 m1 = .ok m12) : m12 = m1 := by
+  unfold intersect at h
+  rw [H.hs] at h
+  dsimp only at h
+  refine combine_self _ ?_ H h
+  rw [cmax_eq, one_eq, max_self]
+
+/-- the `REF_DIV_ZERO` branch of `ref_matrix_intersect` / `ref_matrix_bound`: a singular first argument
+    makes the routine return the second argument unchanged -/
+theorem intersect_bound_div_zero (m1 m2 : M6 ℝ) :
+    (sqrtM m1 = .error .div_zero → intersect m1 m2 = .ok m2) ∧
+    (sqrtAbsM m1 = .error .div_zero → bound m1 m2 = .ok m2) := by
+  constructor
+  · intro h; unfold intersect; rw [h]
+  · intro h; unfold bound; rw [h]
+
+theorem bound_forms {m1 m2 s is m12 : M6 ℝ} {d1 d2 : Eig12 ℝ} (H : InnerExact m1 m2 s is d1 d2)
+    (h : bound m1 m2 = .ok m12) (x : Vec3 ℝ) :
+    ∃ w : Fin 3 → ℝ, vtMv m1 x = ∑ k, w k ^ 2 ∧ vtMv m2 x = ∑ k, d2.lam k * w k ^ 2 ∧
+      vtMv m12 x = ∑ k, min 1 (d2.lam k) * w k ^ 2 := by
+  obtain ⟨hpos, hss, hsi, _⟩ := sqrtM_spec m1 s is d1 H.h1 H.e1 H.hs
+  unfold bound at h
+  rw [sqrtAbsM_eq_sqrtM m1 d1 H.h1 ⟨hpos.1.le, hpos.2.1.le, hpos.2.2.le⟩, H.hs] at h
+  dsimp only at h
+  obtain ⟨w, a, b, c⟩ := combine_forms _ m1 m2 s is m12 d2 hss hsi H.h2 H.e2 h x
+  refine ⟨w, a, b, ?_⟩
+  rw [c]
+  apply Finset.sum_congr rfl
+  intro k _
+  rw [cmin_eq, one_eq]
+
+/-- `xᵀ (bound A B) x ≤ xᵀ A x` for every x (A with positive eigenvalues: `sqrt_abs_m` = `sqrt_m`) -/
+theorem bound_le_left {m1 m2 s is m12 : M6 ℝ} {d1 d2 : Eig12 ℝ} (H : InnerExact m1 m2 s is d1 d2)
+    (h : bound m1 m2 = .ok m12) (x : Vec3 ℝ) : vtMv m12 x ≤ vtMv m1 x := by
+  obtain ⟨w, a, _, c⟩ := bound_forms H h x
+  rw [a, c]
+  apply Finset.sum_le_sum
+  intro k _
+  have : min 1 (d2.lam k) ≤ 1 := min_le_left _ _
+  nlinarith [sq_nonneg (w k)]
+
+/-- `xᵀ (bound A B) x ≤ xᵀ B x` for every x -/
+theorem bound_le_right {m1 m2 s is m12 : M6 ℝ} {d1 d2 : Eig12 ℝ} (H : InnerExact m1 m2 s is d1 d2)
+    (h : bound m1 m2 = .ok m12) (x : Vec3 ℝ) : vtMv m12 x ≤ vtMv m2 x := by
+  obtain ⟨w, _, b, c⟩ := bound_forms H h x
+  rw [b, c]
+  apply Finset.sum_le_sum
+  intro k _
+  have : min 1 (d2.lam k) ≤ d2.lam k := min_le_right _ _
+  nlinarith [sq_nonneg (w k)]
+
+/-- `bound A A = A` -/
+theorem bound_self {m1 s is m12 : M6 ℝ} {d1 d2 : Eig12 ℝ} (H : InnerExact m1 m1 s is d1 d2)
+    (h : bound m1 m1 = .ok m12) : m12 = m1 := by
+  obtain ⟨hpos, _, _, _⟩ := sqrtM_spec m1 s is d1 H.h1 H.e1 H.hs
+  unfold bound at h
+  rw [sqrtAbsM_eq_sqrtM m1 d1 H.h1 ⟨hpos.1.le, hpos.2.1.le, hpos.2.2.le⟩, H.hs] at h
+  dsimp only at h
+  refine combine_self _ ?_ H h
+  rw [cmin_eq, one_eq, min_self]
+
 end Refine.Props.C16
